@@ -12,8 +12,9 @@ vars == <<fam, n, a, k, acc, log>>
 IntArgs == (0..IntTop) \cup {Mod - 1, Mod - 2, Mod \div 2}
 SeqArgs == UNION {[1..m -> {21, 22}] : m \in 0..SeqLen}
 
-Init == /\ fam \in {"seq", "arith"} /\ n \in 2..MaxN
-        /\ a \in (IF fam = "seq" THEN SeqArgs ELSE IntArgs)
+Init == /\ fam \in {"seq", "arith", "anyhist", "errhist", "anyspecial", "errspecial"} /\ n \in 2..MaxN
+        /\ a \in (CASE fam = "seq" -> SeqArgs [] fam = "arith" -> IntArgs
+                     [] fam \in {"anyhist", "anyspecial"} -> AnyArgs [] fam \in {"errhist", "errspecial"} -> ErrArgs)
         /\ k = 0 /\ acc = a /\ log = <<>>
 Apply(i) == /\ CanApply(i, k, n)
             /\ k' = i /\ acc' = F(fam, i, acc)
@@ -24,7 +25,10 @@ Spec == Init /\ [][Next]_vars
 
 Refines == acc = Composed(fam, k, a)
 LogPromised == k = n => P_CallLog(n, a, log)
-FamiliesSensitive == k = 0 => Sensitive(fam, n, a)
+\* (the special families forget the history on purpose: for them the call log alone decides)
+FamiliesSensitive == k = 0 /\ fam \notin SpecialFams => Sensitive(fam, n, a)
+\* the err* families never leave the values that implement error (or nil): they can be typed func(error) error
+ErrTyped == fam \in {"errhist", "errspecial"} => acc[1] \in {0, 1, 6, 7}
 InRange == fam = "arith" => acc \in 0..(Mod - 1)
 Emit == k = n => PrintT(ToJson([t |-> "case", fam |-> fam, n |-> n, a |-> a, want |-> acc]))
 ====
